@@ -231,6 +231,45 @@ class CoLock(object):
         self.release()
 
 
+class CoRLock(CoLock):
+    """Re-entrant cooperative lock."""
+
+    def __init__(self):
+        CoLock.__init__(self)
+        self._depth = 0
+
+    def acquire(self, blocking=True, timeout=-1):
+        s = SCHED
+        me = s.me().name if (s is not None and s.me() is not None) else '<uncontrolled>'
+        if self._held and self._owner == me:
+            self._depth += 1
+            return True
+        if s is None or s.me() is None:
+            assert not self._held
+            self._held, self._owner, self._depth = True, me, 1
+            return True
+        s.switch_point('rlock.acquire')
+        while self._held:
+            s._yield('lock', self, point='rlock.blocked')
+        self._held, self._owner, self._depth = True, me, 1
+        return True
+
+    def release(self):
+        self._depth -= 1
+        if self._depth > 0:
+            return
+        self._held = False
+        self._owner = None
+        s = SCHED
+        if s is not None and s.me() is not None:
+            s.switch_point('rlock.release')
+
+    __enter__ = acquire
+
+    def __exit__(self, *a):
+        self.release()
+
+
 class CoEvent(object):
     def __init__(self):
         self._flag = False
